@@ -305,4 +305,7 @@ def run(tier):
             if d == "tokens":
                 w["first_difference"] = common.first_token_diff(a["tokens"], b["tokens"])
             ck.violation(f"repeat|{d}|{level}|{','.join(ev)}", w)
+    if tier == "thorough":
+        from vlib import cov
+        cov.report(ck, "C14", srcs)
     return ck.finish()
